@@ -165,3 +165,8 @@ Qed.
 
 Lemma slice_cat' {A} (l : list A) o n o' m : o' = (o + n)%nat -> slice l o n ++ slice l o' m = slice l o (n + m).
 Proof. intros ->. apply slice_cat. Qed.
+
+Lemma firstn_app_exact {A} (a b : list A) : firstn (length a) (a ++ b) = a.
+Proof. rewrite firstn_app, Nat.sub_diag, firstn_all. cbn [firstn]. apply app_nil_r. Qed.
+Lemma skipn_app_exact {A} (a b : list A) : skipn (length a) (a ++ b) = b.
+Proof. rewrite skipn_app, Nat.sub_diag, skipn_all. reflexivity. Qed.
